@@ -46,7 +46,7 @@ func main() {
 		// the three parts run concurrently, each on its own generator forked in a fixed order
 		rA, rB := c.Rng.Fork(), c.Rng.Fork()
 		rC := c.Rng.Fork()
-		nC := c.Scale(2, 40)
+		nC := c.Scale(1, 40)
 		var shapes map[string][][]e2e.EngStep
 		var wg sync.WaitGroup
 		var all [][]e2e.EngStep
@@ -58,7 +58,7 @@ func main() {
 			defer wg.Done()
 			// Part C: the targeted shapes (names through labels, temporary directory after a failed build, filegroups of
 			// directories, tools)
-			shapes = e2e.EngRunShapes(rC, base+"/c", nC, c.Scale(4, 6), 8)
+			shapes = e2e.EngRunShapes(rC, base+"/c", nC, c.Scale(3, 6), 8)
 		}()
 		go func() {
 			defer wg.Done()
